@@ -579,6 +579,13 @@ func (c *Compiler) compileSwitch(node *ast.Switch) error {
 		return err
 	}
 
+	// A break or continue inside the switch leaves it without reaching the
+	// code below that removes the switch value, so the loop has to know about it.
+	if loop := c.currentLoop(); loop != nil {
+		loop.switchDepth++
+		defer func() { loop.switchDepth-- }()
+	}
+
 	choices := node.Choices()
 
 	// Emit jump positions for each case
@@ -1260,6 +1267,10 @@ func (c *Compiler) compileControl(node *ast.Control) error {
 			return c.formatError("invalid break statement outside of a loop", node.Token().StartPosition)
 		}
 		return c.formatError("invalid continue statement outside of a loop", node.Token().StartPosition)
+	}
+	// Discard the values of the switch statements being left
+	for i := 0; i < loop.switchDepth; i++ {
+		c.emit(op.PopTop)
 	}
 	if literal == "break" {
 		// When breaking from a for-range loop, we need to pop the iterator from the stack
